@@ -589,8 +589,10 @@ pub fn build_node(it: &J) -> P {
             c.adjacent().boxed()
         }
         "adj" if it.get("head").is_some() => {
-            let mut fields = vec![build_node(&it["head"])];
-            fields.extend(arr(it, "members").iter().map(build_node));
+            // (`head_at`: that many members are declared in front of the tag)
+            let mut fields: Vec<P> = arr(it, "members").iter().map(build_node).collect();
+            let at = it.get("head_at").and_then(J::as_u64).unwrap_or(0) as usize;
+            fields.insert(at.min(fields.len()), build_node(&it["head"]));
             con(fields, true)
         }
         "seq" | "adj" => con(
